@@ -134,6 +134,12 @@ def run(ctx):
                 gone_region.append(c)
             continue
         cases.append(c)
+    # mixed batches: one element breaks down, the others are generic (either order), max_iters < n.
+    # Region of arnoldi_batch_shared_stop: used whenever the probe says the flag is gone
+    mixed = [L.gen_mixed_batch(ctx.rng, nmax=min(nmax, 10)) for _ in range(ctx.budget(40, 240))]
+    if "arnoldi_batch_shared_stop" in present:
+        avoided["batch_mixed"] = len(mixed)
+        mixed = []
     big = []
     for _ in range(ctx.budget(10, 50)):
         c = L.gen_case(ctx.rng, present, nmax=12, force=dict(n=int(ctx.rng.choice([30, 64, 100, 200])), kind="dense"))
@@ -158,6 +164,27 @@ def run(ctx):
         if bad or cd >= 3:
             mism.append(dict(oracle_fail=bool(bad), case=c, got={k: o.get(k) for k in ("ok", "err", "shapes", "H")},
                              failed_clauses=bad, model_code=cd, model_disagrees={4: "values of Q/H"}.get(cd)))
+    # every element of a mixed batch against the single-start model run of that element, and against the oracle
+    elem_compared = 0
+    if mixed:
+        mobs = [L.run_impl(c) for c in mixed]
+        eterms, owner = [], []
+        for ci, (c, o) in enumerate(zip(mixed, mobs)):
+            bad = L.oracle(c, o, present)
+            if bad:
+                mism.append(dict(oracle_fail=True, case=c, got={k: o.get(k) for k in ("ok", "err", "shapes", "H")}, failed_clauses=bad))
+            if o.get("ok"):
+                for b, t in enumerate(L.coq_elem_cases(c, o)):
+                    eterms.append(t); owner.append((ci, b))
+        ecodes, eerr, _ = eval_cases("c15_elem", eterms)
+        elem_compared = len(eterms)
+        if eerr:
+            mism.append(dict(oracle_fail=False, harness_error=eerr))
+        for j, cd in (ecodes or {}).items():
+            if cd >= 3:
+                ci, b = owner[j]
+                mism.append(dict(oracle_fail=False, case=mixed[ci], element=b, model_code=cd, got={k: mobs[ci].get(k) for k in ("shapes", "H")},
+                                 model_disagrees="batch element differs from the single-start run of the same start vector"))
     for c in gone_region + big:
         o = L.run_impl(c)
         bad = L.oracle(c, o, present)
@@ -176,7 +203,7 @@ def run(ctx):
         rel = "m<n" if c["max_iters"] < c["n"] else ("m=n" if c["max_iters"] == c["n"] else "m>n")
         mh[rel] = mh.get(rel, 0) + 1
     return dict(
-        evaluations=len(cases) + len(gone_region) + len(big), distinct_nontrivial=distinct,
+        evaluations=len(cases) + len(gone_region) + len(big) + len(mixed), distinct_nontrivial=distinct,
         rule="square operators n<=%d (dense/Sum/Product/ScalarMul/Kronecker/Diagonal/matmat-defined; real and complex; generic, symmetric, unitary, skew, "
              "block-triangular non-normal with an invariant subspace), starts random/in an invariant subspace (breakdown)/scaled, 1-D and batched, max_iters 1..n+3 "
              "(m<n, m=n, m>n), ten tolerances; non-trivial = n>=3 and max_iters>=2; distinct by hash of (operator data, start, max_iters, tol)" % nmax,
@@ -189,7 +216,7 @@ def run(ctx):
                    breakdown_cases=sum(1 for c in cases if min(c["grades"]) < min(c["max_iters"], c["n"])),
                    complex_cases=sum(1 for c in cases if c["cplx"]), batched_cases=sum(1 for c in cases if c["batch"]),
                    eigs_cases=sum(1 for c in cases if c["entry"] == "arnoldi_eigs"),
-                   avoided_regions=avoided, defect_free_region_cases=len(gone_region), large_oracle_only=len(big),
+                   avoided_regions=avoided, mixed_batches_used=len(mixed), batch_elements_vs_single_start=elem_compared, defect_free_region_cases=len(gone_region), large_oracle_only=len(big),
                    impl_exceptions=sum(1 for o in obs if not o.get("ok"))))
 
 
